@@ -35,16 +35,27 @@ struct MObs {
     limit: u64,
     members: Vec<(u64, u32)>,
     has: Vec<(u64, Option<bool>)>,
+    can: Vec<(u64, Option<bool>)>,
+    admins: (Vec<u64>, bool),
     ledger: Ledger,
+}
+const SENDER_PROBES: [u64; 4] = [60, 61, 62, 50];
+fn coq_rbools(v: &[(u64, Option<bool>)]) -> String {
+    coq_list(&v.iter().map(|(a, r)| format!("({}, {})", a, rb(r))).collect::<Vec<_>>())
+}
+fn coq_admins(a: &(Vec<u64>, bool)) -> String {
+    format!("({}, {})", coq_ns(&a.0), coq_bool(a.1))
 }
 impl MObs {
     fn coq(&self) -> String {
         format!(
-            "(mkMobs {} {} {} {} {})",
+            "(mkMobs {} {} {} {} {} {} {})",
             self.num,
             self.limit,
             coq_pairs(&self.members),
-            coq_list(&self.has.iter().map(|(a, r)| format!("({}, {})", a, rb(r))).collect::<Vec<_>>()),
+            coq_rbools(&self.has),
+            coq_rbools(&self.can),
+            coq_admins(&self.admins),
             coq_ledger(&self.ledger)
         )
     }
@@ -59,6 +70,8 @@ fn observe_pf(w: &World, probes: &[u64]) -> MObs {
         limit: c["member_limit"].as_u64().unwrap_or(u64::MAX),
         members: w.members_all(None).unwrap_or_default(),
         has: probes.iter().map(|a| (*a, has_member(w, *a))).collect(),
+        can: SENDER_PROBES.iter().map(|a| (*a, w.can_execute(*a))).collect(),
+        admins: w.admin_list(),
         ledger: w.ledger(),
     }
 }
@@ -72,22 +85,48 @@ struct TObs {
     beyond: Vec<(u64, u32)>,
     probe: Vec<(u64, u64, Option<bool>)>,
     has: Vec<(u64, Option<bool>)>,
+    /// AllStageMemberInfo { member }: (stage_id, is_member, per_address_limit) per stage
+    all: Vec<(u64, Option<Vec<(u64, bool, u64)>>)>,
+    can: Vec<(u64, Option<bool>)>,
+    admins: (Vec<u64>, bool),
     ledger: Ledger,
 }
 impl TObs {
     fn coq(&self) -> String {
         format!(
-            "(mkTobs {} {} {} {} {} {} {} {})",
+            "(mkTobs {} {} {} {} {} {} {} {} {} {} {})",
             self.num,
             self.limit,
             self.nstages,
             coq_list(&self.stages.iter().map(|(c, ms)| format!("({}, {})", c, coq_pairs(ms))).collect::<Vec<_>>()),
             coq_pairs(&self.beyond),
             coq_list(&self.probe.iter().map(|(k, a, r)| format!("({}, {}, {})", k, a, rb(r))).collect::<Vec<_>>()),
-            coq_list(&self.has.iter().map(|(a, r)| format!("({}, {})", a, rb(r))).collect::<Vec<_>>()),
+            coq_rbools(&self.has),
+            coq_list(
+                &self
+                    .all
+                    .iter()
+                    .map(|(a, r)| match r {
+                        Some(l) => format!("({}, Ok {})", a, coq_list(&l.iter().map(|(k, b, p)| format!("({}, {}, {})", k, coq_bool(*b), p)).collect::<Vec<_>>())),
+                        None => format!("({}, Err)", a),
+                    })
+                    .collect::<Vec<_>>()
+            ),
+            coq_rbools(&self.can),
+            coq_admins(&self.admins),
             coq_ledger(&self.ledger)
         )
     }
+}
+fn all_stage_member_info(w: &World, a: u64) -> Option<Vec<(u64, bool, u64)>> {
+    let v = w.query(&json!({"all_stage_member_info": {"member": name(a)}})).ok()?;
+    Some(
+        v["all_stage_member_info"]
+            .as_array()?
+            .iter()
+            .map(|e| (e["stage_id"].as_u64().unwrap_or(u64::MAX), e["is_member"].as_bool().unwrap_or(false), e["per_address_limit"].as_u64().unwrap_or(u64::MAX)))
+            .collect(),
+    )
 }
 fn observe_t(w: &World, probes: &[u64]) -> TObs {
     let c = w.query(&json!({"config": {}})).expect("config");
@@ -123,6 +162,9 @@ fn observe_t(w: &World, probes: &[u64]) -> TObs {
         beyond,
         probe,
         has: probes.iter().map(|a| (*a, has_member(w, *a))).collect(),
+        all: probes.iter().map(|a| (*a, all_stage_member_info(w, *a))).collect(),
+        can: SENDER_PROBES.iter().map(|a| (*a, w.can_execute(*a))).collect(),
+        admins: w.admin_list(),
         ledger: w.ledger(),
     }
 }
@@ -228,7 +270,55 @@ impl Mon {
     }
 }
 
+impl Mon {
+    /// CanExecute answers true exactly for the stored admins; the admin list is what the
+    /// history says it must be (`want`: creation list, replaced by an accepted update_admins,
+    /// made immutable by an accepted freeze)
+    fn admin(&mut self, opl: &str, can: &[(u64, Option<bool>)], admins: &(Vec<u64>, bool), want: &(Vec<u64>, bool)) {
+        let k = self.kind.label();
+        if admins != want {
+            self.flag(format!("C11:{}:{}:admin-list-wrong", k, opl), format!("AdminList = {:?}, the calls accepted so far make it {:?}", admins, want));
+        }
+        for (a, r) in can {
+            if let Some(b) = r {
+                if *b != want.0.contains(a) {
+                    self.flag(format!("C11:{}:{}:can-execute-wrong", k, opl), format!("CanExecute({}) = {} with admins {:?}", name(*a), b, want.0));
+                }
+            }
+        }
+    }
+    /// AllStageMemberInfo: one entry per stage, is_member exactly for stored pairs (raw
+    /// storage), and for the flex kind the stored mint count
+    fn all_info(&mut self, opl: &str, w: &World, nstages: u64, all: &[(u64, Option<Vec<(u64, bool, u64)>>)]) {
+        let k = self.kind.label();
+        let raw = w.raw_members();
+        for (a, r) in all {
+            let Some(l) = r else { continue };
+            if l.len() as u64 != nstages || l.iter().enumerate().any(|(i, e)| e.0 != i as u64) {
+                self.flag(format!("C11:{}:{}:all-stage-info-shape", k, opl), format!("AllStageMemberInfo({}) lists stages {:?}, there are {}", name(*a), l.iter().map(|e| e.0).collect::<Vec<_>>(), nstages));
+            }
+            for (st, is_member, n) in l {
+                let stored = raw.iter().find(|e| e.0 as u64 == *st && e.1 == *a);
+                if *is_member != stored.is_some() {
+                    self.flag(format!("C11:{}:{}:all-stage-info-wrong", k, opl), format!("AllStageMemberInfo({}) says is_member = {} for stage {}, stored = {}", name(*a), is_member, st, stored.is_some()));
+                }
+                if self.kind == Kind::TieredFlex && *n != stored.map(|e| e.2 as u64).unwrap_or(0) {
+                    self.flag(format!("C11:{}:{}:all-stage-info-wrong", k, opl), format!("AllStageMemberInfo({}) reports {} mints for stage {}, stored {:?}", name(*a), n, st, stored.map(|e| e.2)));
+                }
+            }
+        }
+    }
+}
+fn track_admins(want: &mut (Vec<u64>, bool), op: &Op) {
+    match op {
+        Op::UpdAdmins(l) => want.0 = l.clone(),
+        Op::Freeze => want.1 = false,
+        _ => {}
+    }
+}
+
 struct Outcome {
+    extra: Vec<String>,
     coq: String,
     evals: u64,
     viol: Option<(String, String)>,
@@ -326,6 +416,7 @@ fn run_pf(h: &History) -> Outcome {
             mon.flag(format!("C11:{}:instantiate:rejected-but-charged", kind.label()), format!("{:?}", l));
         }
         return Outcome {
+            extra: vec![],
             coq: format!("C11Fail {} {} {}", kind.coq(), env0, imsg),
             evals: 1,
             viol: mon.viol,
@@ -357,6 +448,8 @@ fn run_pf(h: &History) -> Outcome {
             }
         }
     };
+    let mut want_admins = (h.init.admins.clone(), h.init.mutable);
+    mon.admin("instantiate", &o0.can, &o0.admins, &want_admins);
     enumeration_monitor(&mut mon, &w, "instantiate", o0.num, None);
     check_counts(&mut mon, "instantiate", &o0);
     mon.capacity("instantiate", o0.num, o0.limit, None);
@@ -373,6 +466,10 @@ fn run_pf(h: &History) -> Outcome {
         let ok = r.is_ok();
         let o = observe_pf(&w, &probes);
         enumeration_monitor(&mut mon, &w, op.kind_label(), o.num, None);
+        if ok {
+            track_admins(&mut want_admins, op);
+        }
+        mon.admin(op.kind_label(), &o.can, &o.admins, &want_admins);
         let opl = op.kind_label();
         hist.push(format!("{}:{}:{}", kind.label(), opl, if ok { "ok" } else { "err" }));
         if ok && matches!(op, Op::Add(_) | Op::Remove(_) | Op::Increase(_)) {
@@ -435,6 +532,7 @@ fn run_pf(h: &History) -> Outcome {
         prev = o;
     }
     Outcome {
+        extra: vec![],
         coq: format!("C11Hist {} {} {} {} {}", kind.coq(), env0, imsg, o0.coq(), coq_list(&steps_coq)),
         evals,
         viol: mon.viol,
@@ -460,6 +558,7 @@ fn run_tiered(h: &History) -> Outcome {
             mon.flag(format!("C11:{}:instantiate:rejected-but-charged", kind.label()), format!("{:?}", l));
         }
         return Outcome {
+            extra: vec![],
             coq: format!("C11TFail {} {} {}", kind.coq(), env0, imsg),
             evals: 1,
             viol: mon.viol,
@@ -505,6 +604,9 @@ fn run_tiered(h: &History) -> Outcome {
             }
         }
     };
+    let mut want_admins = (h.init.admins.clone(), h.init.mutable);
+    mon.admin("instantiate", &o0.can, &o0.admins, &want_admins);
+    mon.all_info("instantiate", &w, o0.nstages, &o0.all);
     enumeration_monitor(&mut mon, &w, "instantiate", o0.num, Some(&o0.stages.iter().map(|s| s.0).collect::<Vec<_>>()));
     check_counts(&mut mon, "instantiate", &o0);
     mon.capacity("instantiate", o0.num, o0.limit, None);
@@ -521,6 +623,11 @@ fn run_tiered(h: &History) -> Outcome {
         let ok = r.is_ok();
         let o = observe_t(&w, &probes);
         enumeration_monitor(&mut mon, &w, op.kind_label(), o.num, Some(&o.stages.iter().map(|s| s.0).collect::<Vec<_>>()));
+        if ok {
+            track_admins(&mut want_admins, op);
+        }
+        mon.admin(op.kind_label(), &o.can, &o.admins, &want_admins);
+        mon.all_info(op.kind_label(), &w, o.nstages, &o.all);
         let opl = op.kind_label();
         hist.push(format!("{}:{}:{}", kind.label(), opl, if ok { "ok" } else { "err" }));
         if ok && matches!(op, Op::TAdd { .. } | Op::TRemove { .. } | Op::Increase(_) | Op::AddStage { .. } | Op::RemoveStage(_)) {
@@ -572,6 +679,7 @@ fn run_tiered(h: &History) -> Outcome {
         prev = o;
     }
     Outcome {
+        extra: vec![],
         coq: format!("C11THist {} {} {} {} {}", kind.coq(), env0, imsg, o0.coq(), coq_list(&steps_coq)),
         evals,
         viol: mon.viol,
@@ -586,9 +694,10 @@ fn run_imm(h: &History) -> Outcome {
     let mut mon = Mon { kind: Kind::Immutable, viol: None };
     let ms: Vec<u64> = h.init.members.first().map(|l| l.iter().map(|m| m.0).collect()).unwrap_or_default();
     let r = w.instantiate(&h.init);
-    let hist = vec![format!("whitelist-immutable:instantiate:{}", if r.is_ok() { "ok" } else { "err" })];
+    let mut hist = vec![format!("whitelist-immutable:instantiate:{}", if r.is_ok() { "ok" } else { "err" })];
     if r.is_err() {
         return Outcome {
+            extra: vec![],
             coq: format!("C11ImmFail {} {}", coq_funds(&h.init.funds), coq_ns(&ms)),
             evals: 1,
             viol: None,
@@ -621,6 +730,53 @@ fn run_imm(h: &History) -> Outcome {
             mon.flag("C11:whitelist-immutable:instantiate:includes-address-wrong".into(), format!("IncludesAddress({}) = {} but stored = {}", name(*a), b, stored.contains(a)));
         }
     }
+    // Config / Admin / PerAddressLimit report what creation was given; there is no execute
+    // message: whatever is sent is rejected and changes nothing
+    let cfg = w.query(&json!({"config": {}})).ok();
+    let cfg_admin = cfg.as_ref().map(|v| id_of(v["config"]["admin"].as_str().unwrap_or(""))).unwrap_or(0);
+    let cfg_pal = cfg.as_ref().and_then(|v| v["config"]["per_address_limit"].as_u64()).unwrap_or(u64::MAX);
+    let cfg_bps = cfg.as_ref().and_then(|v| v["config"]["mint_discount_bps"].as_u64());
+    let admin_q = w.query(&json!({"admin": {}})).ok().map(|v| id_of(v.as_str().unwrap_or(""))).unwrap_or(0);
+    let pal_q = w.query(&json!({"per_address_limit": {}})).ok().and_then(|v| v.as_u64()).unwrap_or(u64::MAX);
+    if cfg_admin != h.init.sender || admin_q != h.init.sender || cfg_pal != h.init.pal as u64 || pal_q != h.init.pal as u64 || cfg_bps != h.init.whale.map(|x| x as u64) {
+        mon.flag("C11:whitelist-immutable:instantiate:config-wrong".into(), format!("Config = {:?}, Admin = {}, PerAddressLimit = {}; created by {} with limit {} discount {:?}", cfg, name(admin_q), pal_q, name(h.init.sender), h.init.pal, h.init.whale));
+    }
+    let snapshot = |w: &World| {
+        (w.digest(), w.query(&json!({"address_count": {}})).ok(), w.query(&json!({"config": {}})).ok(), w.query(&json!({"admin": {}})).ok(), w.raw_members(), w.ledger())
+    };
+    let before = snapshot(&w);
+    let mut execs = vec![];
+    for (sender, msg) in [
+        (60u64, json!({})),
+        (60, json!({"add_members": {"to_add": [name(150)]}})),
+        (61, json!({"update_admin": {"admin": name(61)}})),
+        (60, json!({"remove_members": {"to_remove": names_of(&ms)}})),
+        (62, json!("freeze")),
+    ] {
+        let r = crate::chain::exec(&mut w.app, &name(sender), &addr, &msg, &[]);
+        if r.is_ok() {
+            mon.flag("C11:whitelist-immutable:execute:accepted".into(), format!("execute {} was accepted", msg));
+        }
+        execs.push(r.is_ok());
+        hist.push(format!("whitelist-immutable:execute:{}", if r.is_ok() { "ok" } else { "err" }));
+        if snapshot(&w) != before {
+            mon.flag("C11:whitelist-immutable:execute:changed-state".into(), format!("execute {} changed storage, a query answer or a balance", msg));
+        }
+    }
+    let extra = vec![format!(
+        "C11ImmCfg {} {} {} {} {} ({}, {}, {}) {} {} {}",
+        h.init.sender,
+        h.init.pal,
+        coq_opt32(h.init.whale),
+        coq_funds(&h.init.funds),
+        coq_ns(&ms),
+        cfg_admin,
+        cfg_pal,
+        coq_opt_n(cfg_bps),
+        admin_q,
+        pal_q,
+        coq_list(&execs.iter().map(|b| coq_bool(*b).to_string()).collect::<Vec<_>>())
+    )];
     let coq = format!(
         "C11Imm {} {} {} {} {}",
         coq_funds(&h.init.funds),
@@ -629,9 +785,12 @@ fn run_imm(h: &History) -> Outcome {
         coq_ns(&stored),
         coq_list(&probes.iter().map(|(a, b)| format!("({}, {})", a, coq_bool(*b))).collect::<Vec<_>>())
     );
-    Outcome { coq, evals: 1 + probes.len() as u64, viol: mon.viol, hist, nontrivial: true, sample: format!("{:?} -> count {} stored {:?}", ms, count, stored) }
+    Outcome { extra, coq, evals: 6 + probes.len() as u64, viol: mon.viol, hist, nontrivial: true, sample: format!("{:?} -> count {} stored {:?}", ms, count, stored) }
 }
 
+fn names_of(ids: &[u64]) -> Vec<String> {
+    ids.iter().map(|i| name(*i)).collect()
+}
 fn run_history(h: &History) -> Outcome {
     match h.init.kind {
         Kind::Plain | Kind::Flex => run_pf(h),
@@ -830,11 +989,62 @@ fn corpus() -> Vec<History> {
             v.push(History { init: i, steps: vec![call(T0 + 1, 60, add(k, 0, vec![(101, 99)]))] });
         }
     }
+    // add_stage after remove_stage of a stage that is not the last one and has members,
+    // re-adding the same addresses to the freed stage ids (counts are checked after each)
+    for k in [Kind::Tiered, Kind::TieredFlex] {
+        v.push(History {
+            init: t_init(k, vec![ones(&[100, 101]), ones(&[101, 102, 103]), ones(&[103, 104])], 3, 20),
+            steps: vec![
+                call(T0 + 1, 60, Op::RemoveStage(1)),
+                call(T0 + 2, 60, Op::AddStage { stage: stage(1), ms: vec![(101, 2), (102, 1), (103, 1), (102, 3)] }),
+                call(T0 + 3, 60, Op::AddStage { stage: stage(2), ms: vec![(103, 1), (104, 2), (104, 1)] }),
+                call(T0 + 4, 60, Op::RemoveStage(0)),
+                call(T0 + 5, 60, Op::AddStage { stage: stage(0), ms: vec![(100, 1), (101, 1), (100, 4), (103, 1)] }),
+                call(T0 + 6, 60, add(k, 0, ones(&[100, 103, 105]))),
+            ],
+        });
+    }
+    // admin list: CanExecute before and after update_admins / freeze, by every role
+    for k in LIST_KINDS {
+        v.push(History {
+            init: init_for(k, ones(&[100]), 5),
+            steps: vec![
+                call(T0 + 1, 62, Op::UpdAdmins(vec![62])),
+                call(T0 + 2, 60, Op::UpdAdmins(vec![61, 62])),
+                call(T0 + 3, 60, add(k, 0, ones(&[101]))),
+                call(T0 + 4, 62, add(k, 0, ones(&[102]))),
+                call(T0 + 5, 62, Op::UpdAdmins(vec![62, 50])),
+                call(T0 + 6, 61, Op::UpdAdmins(vec![])),
+                call(T0 + 7, 61, add(k, 0, ones(&[103]))),
+            ],
+        });
+        v.push(History {
+            init: init_for(k, ones(&[100]), 5),
+            steps: vec![
+                call(T0 + 1, 62, Op::Freeze),
+                call(T0 + 2, 61, Op::Freeze),
+                call(T0 + 3, 60, Op::UpdAdmins(vec![62])),
+                call(T0 + 4, 60, Op::Freeze),
+                call(T0 + 5, 60, add(k, 0, ones(&[101]))),
+            ],
+        });
+        let mut i = init_for(k, ones(&[100]), 5);
+        i.mutable = false;
+        i.admins = vec![61];
+        v.push(History { init: i, steps: vec![call(T0 + 1, 61, Op::UpdAdmins(vec![60])), call(T0 + 2, 61, add(k, 0, ones(&[101]))), call(T0 + 3, 60, add(k, 0, ones(&[102])))] });
+    }
     // whitelist-immutable
     v.push(History { init: imm_init(vec![100, 101, 100, 102, 101], vec![]), steps: vec![] });
     v.push(History { init: imm_init(vec![], vec![]), steps: vec![] });
     v.push(History { init: imm_init(vec![100], native(1)), steps: vec![] });
     v.push(History { init: imm_init(vec![52, 50, 50, 60, 100], vec![]), steps: vec![] });
+    for (pal, bps, sender) in [(0u32, None, 60u64), (1, Some(0u32), 61), (7, Some(500), 62), (u32::MAX, Some(10_000), 60)] {
+        let mut i = imm_init(vec![100, 101], vec![]);
+        i.pal = pal;
+        i.whale = bps;
+        i.sender = sender;
+        v.push(History { init: i, steps: vec![] });
+    }
     v
 }
 
@@ -908,6 +1118,30 @@ fn probes() -> Vec<History> {
         // removal against the start instant (the count must stay right on both sides)
         for now in [T0 + 100 * S - 1, T0 + 100 * S, T0 + 100 * S + 1] {
             v.push(History { init: init_for(k, ones(&[100, 101]), 5), steps: vec![call(now, 60, remove(k, 0, vec![100])), call(now, 60, add(k, 0, ones(&[102])))] });
+        }
+    }
+    // per_address_limit guard (1 ..= 30) wherever a kind has it: plain instantiate; tiered
+    // stages at instantiate, add_stage and update_stage_config (flex kinds carry no such field)
+    for pal in [0u32, 1, 2, 29, 30, 31] {
+        for k in LIST_KINDS {
+            let mut i = init_for(k, ones(&[100]), 5);
+            i.pal = pal;
+            for st in i.stages.iter_mut() {
+                st.pal = pal;
+            }
+            v.push(History { init: i, steps: vec![call(T0 + 1, 60, add(k, 0, ones(&[101])))] });
+        }
+        for k in [Kind::Tiered, Kind::TieredFlex] {
+            let mut st = stage(1);
+            st.pal = pal;
+            v.push(History {
+                init: t_init(k, vec![ones(&[100])], 1, 5),
+                steps: vec![
+                    call(T0 + 1, 60, Op::UpdStage { stage: 0, start: None, end: None, pal: Some(pal) }),
+                    call(T0 + 2, 60, Op::AddStage { stage: st, ms: ones(&[101]) }),
+                    call(T0 + 3, 60, add(k, 1, ones(&[102]))),
+                ],
+            });
         }
     }
     // tiered: stage bookkeeping guards
@@ -1278,6 +1512,7 @@ pub fn run(a: &Args) {
             rep.samples.push(json!({"history": format!("{:?} + {} steps", h.init.kind, h.steps.len()), "impl_output": o.sample}));
         }
         coq_cases.push(o.coq);
+        coq_cases.extend(o.extra);
     }
     rep.distinct_nontrivial = distinct_h.len() as u64;
     rep.rule = "histories on the real whitelist, whitelist-flex, tiered-whitelist, tiered-whitelist-flex and whitelist-immutable contracts: corpus (one replay per repaired defect), guard-boundary probes per kind (limits and fees at 999/1000/1001/.../MAX/MAX+1, count vs limit, sender roles, stage bookkeeping), random histories, malformed funds and addresses; evaluations = instantiate + calls. Non-trivial = distinct history with at least one accepted add / remove / stage / increase call (or an accepted immutable instantiate).".into();
